@@ -19,6 +19,15 @@ FILES = {
     "include/tulz/observer/Subject.h": ["C10"],
     "include/tulz/observer/routing/ConcurrentSubjectRouter.h": ["C11", "C15"],
     "src/Path.cpp": ["C18"],
+    # lower layers the claimed properties build on
+    "include/tulz/observer/routing/SubjectRouter.h": ["C11"],
+    "src/observer/routing/SubjectRouter.cpp": ["C11"],
+    "src/observer/routing/RoutingLevelView.cpp": ["C11"],
+    "include/tulz/observer/Subscription.h": ["C10", "C11"],
+    "include/tulz/observer/Observer.h": ["C10"],
+    "include/tulz/observer/EternalObserver.h": ["C10"],
+    "include/tulz/observer/USubscription.h": ["C11"],
+    "include/tulz/observer/detail/ObserverFactory.h": ["C10"],
     "src/DirectoryVisitor.cpp": ["C18"],
 }
 
